@@ -317,8 +317,65 @@ func runCheck(prog *Program, verifDir string, propID string, tier string, seed i
 		exit = 1
 	}
 	if len(canaryBad) > 0 {
-		fmt.Printf("CHECK BROKEN property=%s: contradictory hypotheses (false is provable at entry) in %v\n", propID, canaryBad)
-		exit = 1
+		// A function whose hypotheses are contradictory proves everything that follows. On a changed tree this
+		// happens when an obligation whose conclusion is assumed afterwards (a loop invariant on entry, a callee
+		// precondition) fails: the function's remaining obligations - also the ones this property claims - are
+		// then vacuous. Look for such a failed obligation among ALL obligations of the function (not only the
+		// ones this property selects); if there is one, that obligation is reported as the violation.
+		bad := map[string]bool{}
+		for _, k := range canaryBad {
+			bad[k] = true
+		}
+		anyKF := map[string]bool{}
+		for i := range kfs {
+			if kfs[i].Status != "fixed" {
+				anyKF[kfs[i].Obligation] = true
+			}
+		}
+		var sub []*FuncResult
+		for _, r := range results {
+			if bad[r.Key] {
+				sub = append(sub, r)
+			}
+		}
+		dischargeAll(sub, timeout, workdir, par, func(o *Obligation) bool { return o.Res.Status == "" && o.Kind != "post" && o.Kind != "canary" })
+		explained := map[string]bool{}
+		for _, r := range sub {
+			for _, o := range r.Obls {
+				if o.Res.Status == "" || o.Res.Status == "unsat" || o.Kind == "post" || o.Kind == "canary" || anyKF[o.Name] {
+					continue
+				}
+				already := false
+				for _, v := range violations {
+					if v.o == o {
+						already = true
+					}
+				}
+				if already {
+					explained[r.Key] = true // reported above as a claimed obligation of this property
+					break
+				}
+				path := filepath.Join(replayDir, sanitizeFile(o.Name)+".json")
+				rep := buildReplay(prog, verifDir, propID, o, results)
+				rep.Description += " [this obligation fails and its conclusion is assumed afterwards: every later obligation of " + r.Key + ", including those claimed by " + propID + ", is vacuous]"
+				b, _ := json.MarshalIndent(rep, "", " ")
+				os.WriteFile(path, b, 0o644)
+				fmt.Printf("VIOLATION property=%s replay=%s obligation=%s status=%s vacuous-after-it no-failing-input-found\n", propID, path, o.Name, o.Res.Status)
+				explained[r.Key] = true
+				exit = 1
+				break
+			}
+		}
+		var unexplained []string
+		for _, k := range canaryBad {
+			if !explained[k] {
+				unexplained = append(unexplained, k)
+			}
+		}
+		if len(unexplained) > 0 {
+			fmt.Printf("CHECK BROKEN property=%s: contradictory hypotheses (false is provable) in %v\n", propID, unexplained)
+			exit = 1
+		}
 	}
 	if claimed == 0 {
 		fmt.Printf("CHECK BROKEN property=%s: no claimed obligations generated\n", propID)
@@ -486,6 +543,18 @@ func writeEvidence(verifDir string, pc *PropConfig, tier string, seed int64, res
 			s.VCHash = fmt.Sprintf("%x", sha256.Sum256([]byte(q)))[:16]
 		}
 		samples = append(samples, s)
+	}
+	if len(samples) == 0 {
+		// a property made of generated obligations only (C19: lock.*): the first dozen as they come
+		for _, v := range vs {
+			if len(samples) >= 12 {
+				break
+			}
+			samples = append(samples, sample{Obligation: v.o.Name, Kind: v.o.Kind, Position: v.o.Pos, Status: v.status, Solver: v.o.Res.Solver, TimeS: v.o.Res.TimeS, Desc: v.o.Desc})
+		}
+	}
+	if samples == nil {
+		samples = []sample{}
 	}
 	var fns []string
 	assumed := map[string]bool{}
